@@ -762,14 +762,16 @@ def msm_header_bits(g, number):
 class C10(Prop):
     id = "C10"
     module = "C10"
-    theorems = ["C10_rejects", "C10_sat_mask_bits", "C10_mask_offsets", "C10_masks", "C10_rows", "C10_decode_ids", "C10_decode_cells", "C10_msm_specs_ok", "C10_segment_decodes"]
+    theorems = ["C10_rejects", "C10_sat_mask_bits", "C10_mask_offsets", "C10_masks", "C10_rows", "C10_decode_ids", "C10_decode_cells", "C10_msm_specs_ok", "C10_segment_decodes",
+                "C10_msm_layouts_tail", "C10_frame_decodes"]
     partial_note = ("partial: everything the MSM encoder accepts satisfies the property's preconditions; for every accepted input in any caller order the three masks are written first "
                     "(64 + 32 + |G|x|S| bits), the satellite mask has exactly the listed satellites' bits (= the satellites of the cells), the signal mask exactly the cells' signal "
                     "identifiers, and the cell mask exactly the bits at each cell's row-major index (rank of satellite x number of signals + rank of signal), no two cells on one index; "
                     "mask offsets 73/137/169 for all 49 layouts (table obligation); the rows the encoder writes are a permutation of the caller's rows sorted by ascending satellite / "
                     "(satellite, signal identifier), the same list for every arrangement of the input (order independence); the decoder reads identifiers of set mask bits in strictly ascending order and the cells in row-major "
                     "order; every non-empty segment the encoder accepts decodes without error, with the same masks, the listed satellites ascending, exactly the encoder's cells and as many rows as "
-                    "given, consuming exactly the bits written. That the decoded row contents are the encoded ones in normal form (column-wise field round trip) is covered by the "
+                    "given, consuming exactly the bits written; C10_frame_decodes: at the public API, for every builder history, the frame of an accepted MSM message with a non-empty segment is "
+                    "accepted by MessageFrame::new, carries the number and get_message returns the typed message (never Corrupt) with as many rows as given. That the decoded row contents are the encoded ones in normal form (column-wise field round trip) is covered by the "
                     "ROUNDTRIP correspondence and the probe that recomputes masks and rows independently")
     table_obligations = ["msm_mask_offsets", "sig_tables_ok"]
     rule = ("ROUNDTRIP of MSM messages of all 49 types: admissible (S, G, C) with random permutations of the satellite and cell lists, up to 64 cells, and one generator per "
@@ -801,7 +803,7 @@ class C10(Prop):
         number = msg[1]
         exp = msm_expect(g, number, msg)
         if res.startswith("PANIC"):
-            return "MSM encode panicked"
+            return "the MSM round trip (encode, then decode of the emitted frame) panicked"
         if exp[0] == "err":
             if not res.startswith("ERR "):
                 return "an MSM message breaking %s was encoded instead of rejected" % "/".join(sorted(exp[1]))
@@ -931,12 +933,14 @@ class C16(Prop):
     id = "C16"
     module = "C16"
     theorems = ["C16_ssr_tables_ok", "C16_decode_bounded", "C16_decode_no_panic", "C16_counts_fit_1059", "C16_counts_fit_1065",
-                "C16_roundtrip_1059", "C16_roundtrip_1065", "C16_glo_order", "C16_roundtrip_1230"]
+                "C16_roundtrip_1059", "C16_roundtrip_1065", "C16_glo_order", "C16_roundtrip_1230",
+                "C16_frame_1059", "C16_frame_1065", "C16_frame_1230"]
     partial_note = ("partial: decode never panics and never exceeds the list capacity; accepted lists have <= 63 satellites, <= 31 recognised entries per satellite and fit the "
                     "capacity; SSR tables one-to-one with 5-bit ids; for 1059 and 1065 every accepted list whose quantised biases fit their 14-bit field decodes to exactly its "
                     "recognised entries, each once, grouped by ascending satellite, in list order within a satellite, bias on the 0.01 grid; for 1230 every accepted list with pairwise distinct signals decodes to the same entries, "
-                    "each once, in mask order, bias on the 0.02 grid (saturating). Biases beyond the 14-bit field of 1059/1065 (they wrap) and the frame wrapper around "
-                    "the lists are covered by the ROUNDTRIP correspondence and the probes")
+                    "each once, in mask order, bias on the 0.02 grid (saturating); C16_frame_1059/1065/1230 lift these to build_message / get_message for every builder history "
+                    "(frame accepted, number carried, typed message with that list, never Corrupt). Biases beyond the 14-bit field of 1059/1065 (they wrap: outside the theorems' "
+                    "hypotheses) are covered by the ROUNDTRIP correspondence and the probes")
     table_obligations = ["ssr_tables_ok", "glo_order"]
     rule = ("ROUNDTRIP of 1059/1065/1230 messages: 0..64 satellites, 0..40 entries per satellite, entries of one satellite scattered, all recognised signals, totals around 390, "
             "1230 lists in every order; DECODE of hostile frames with maximal per-satellite counts; non-trivial = distinct messages with at least two entries")
